@@ -12,6 +12,33 @@ from .. import exceptions
 from .c18 import global_obligations
 
 
+def prefix_choice_table(ctx, clause):
+    """The shapes prefix: the first of the documented defaults that the user's dictionary does not use; the random generator
+    is consulted only when all of them are taken (decision table over every subset of taken defaults)."""
+    import itertools
+    from ..abseval import Evaluator
+    from ..report import Ob
+    p = ctx.p
+    f = p.func("shexer.utils.namespaces:find_adequate_prefix_for_shapes_namespaces")
+    defaults = list(p.const("shexer.utils.namespaces", "_PRIORITY_PREFIXES_FOR_SHAPES"))
+    obs = []
+    for r in range(len(defaults) + 1):
+        for taken in itertools.combinations(defaults, r):
+            ev = Evaluator(ctx)
+            ev.stubs = {"get_random_string": "zzz"}
+            d = {"http://ns%d/" % i: t for i, t in enumerate(taken)}
+            d["http://other/"] = "ex"
+            extra = {prm: None for prm in f.bound_params[1:] if prm not in f.defaults}
+            outs = ev.outcomes(f, dict({f.bound_params[0]: d}, **extra))
+            free = [x for x in defaults if x not in taken]
+            want = free[0] if free else "zzz"
+            ok = outs == [("return", want)]
+            obs.append(Ob(clause, "R-TABLE", "R-TABLE|shapes-prefix|taken=%s" % ",".join(repr(t) for t in taken), f.loc(), ok,
+                          "defaults taken %s -> %s" % (list(taken), repr(want) if free else "a random prefix (all four taken)") if ok else
+                          "defaults taken %s: expected %s, code gives %s" % (list(taken), repr(want) if free else "the random fallback", outs)))
+    return obs
+
+
 def check(ctx, tier):
     obs = []
     o_sets, n_sets = det.check_sets(ctx, "D")
@@ -21,6 +48,7 @@ def check(ctx, tier):
     o_glob, _ = global_obligations(ctx, "D")
     obs += o_glob
     obs += ctx.attempt(lambda c, cl: plumb.exclusive_source(c, cl, "rdflib_graph")[0], ctx, "D-d", default=[])
+    obs += ctx.attempt(prefix_choice_table, ctx, "D-e", default=[])
     exceptions.apply(obs)
     return {"obs": obs, "floors": [Floor("set constructions examined", n_sets, 10), Floor("other nondeterminism sources", n_src, 2)],
             "explanation": "Every construction of a set (literal, comprehension, set(), set algebra) in the package is followed along copy "
